@@ -332,11 +332,38 @@ func runCheck(prop, tier string, ovs []string, only string, writeBaseline, noRep
 					}
 				}
 			}
-			confirmed, log := searchFunction(ctx, fr, prop, dir, n)
+			// generous limits: the searches of one check run one after the other, but several checks may share the
+			// machine; a search that is cut off explores nothing and must not pass for one that found nothing
+			testTimeout := 20 * time.Minute
+			if tier == "thorough" {
+				testTimeout = 3 * time.Hour
+			}
+			if k, err := strconv.Atoi(os.Getenv("GOCV_SEARCH_TIMEOUT_S")); err == nil && k > 0 {
+				testTimeout = time.Duration(k) * time.Second // for testing the did-not-finish path
+			}
+			statsRe := regexp.MustCompile(`GOCV-SEARCH-STATS generated=(\d+) satisfied=(\d+) distinct=(\d+)`)
+			var confirmed bool
+			var log string
+			finished := false
+			for attempt := 0; attempt < 2 && !finished; attempt++ {
+				confirmed, log = searchFunction(ctx, fr, prop, dir, n, testTimeout)
+				// the search ran to a verdict only if the test printed its statistics and one of its two verdict lines
+				finished = statsRe.MatchString(log) && (confirmed || strings.Contains(log, "REPLAY-NOT-CONFIRMED (bounded search"))
+			}
 			boundedRuns++
 			fr.searchInputs = n
-			if m := regexp.MustCompile(`bounded search: (\d+) inputs satisfied`).FindStringSubmatch(log); m != nil {
-				fr.searchTried, _ = strconv.Atoi(m[1])
+			if m := statsRe.FindStringSubmatch(log); m != nil {
+				fr.searchGenerated, _ = strconv.Atoi(m[1])
+				fr.searchTried, _ = strconv.Atoi(m[2])
+				fr.searchDistinct, _ = strconv.Atoi(m[3])
+			}
+			if !finished {
+				// build failure, crash outside the judged call, deadlock or time limit: nothing can be said
+				fr.searchResult = "search-did-not-finish"
+				fr.searchNote = lastLinesOf(log, 12)
+				os.WriteFile(filepath.Join(dir, "replay.log"), []byte(log), 0o644)
+				lines = append(lines, fmt.Sprintf("UNDECIDED bounded search of %s did not run to a verdict (twice); log: %s", fr.fc.Func, filepath.Join(dir, "replay.log")))
+				continue
 			}
 			fr.searchResult = "no-violation-found"
 			if !confirmed {
@@ -655,6 +682,14 @@ func firstLineOf(s string) string {
 	return s
 }
 
+func lastLinesOf(s string, n int) string {
+	ls := strings.Split(strings.TrimSpace(s), "\n")
+	if len(ls) > n {
+		ls = ls[len(ls)-n:]
+	}
+	return strings.Join(ls, "\n")
+}
+
 // regionTerm evaluates the lowered region predicate of a finding on the entry values of the function.
 func (e *Engine) regionTerm(fr *FuncResult, f *Finding) (t string, err error) {
 	defer func() {
@@ -816,13 +851,17 @@ func writeEvidence(prop, tier string, seed int, frs []*FuncResult, all []*OblRes
 		"rule":                  "one evaluation = one verification condition generated from the current source of a function under contract; non-trivial = not syntactically true, sent to the solvers and answered unsat",
 	}
 	var bounded []map[string]any
-	boundedInputs, boundedTried := 0, 0
+	boundedInputs, boundedTried, boundedDistinct := 0, 0, 0
 	for _, fr := range frs {
 		if fr.searchInputs > 0 && fr.fc != nil {
-			bounded = append(bounded, map[string]any{"function": fr.fc.Func, "generated_inputs": fr.searchInputs, "inputs_satisfying_the_precondition": fr.searchTried, "result": fr.searchResult,
+			bounded = append(bounded, map[string]any{"function": fr.fc.Func, "input_budget": fr.searchInputs, "generated_inputs": fr.searchGenerated, "inputs_satisfying_the_precondition": fr.searchTried, "distinct_inputs_satisfying_the_precondition": fr.searchDistinct, "result": fr.searchResult,
 				"why": "stand-in: " + firstNonEmpty(fr.undecided, "an obligation of this function was not discharged"), "bound": fmt.Sprintf("%d pseudo-random inputs from a fixed seed (values from tables of boundary cases plus small random ones; slices and strings of length <= 5)", fr.searchInputs)})
-			boundedInputs += fr.searchInputs
+			if fr.searchResult == "search-did-not-finish" {
+				bounded[len(bounded)-1]["end_of_log"] = fr.searchNote
+			}
+			boundedInputs += fr.searchGenerated
 			boundedTried += fr.searchTried
+			boundedDistinct += fr.searchDistinct
 		}
 	}
 	if len(bounded) > 0 {
@@ -832,8 +871,9 @@ func writeEvidence(prop, tier string, seed int, frs []*FuncResult, all []*OblRes
 	if level == "exploration" {
 		// a check that consists of bounded stand-ins only: the generic counters describe the search, not solver obligations
 		cov["evaluations"] = boundedInputs
-		cov["distinct_nontrivial"] = boundedTried
-		cov["rule"] = "one evaluation = one generated input of a ghost scenario executed on the real code and judged by its contract; counted as non-trivial when it satisfies the scenario's precondition (inputs are generated from distinct seeds of one fixed master seed; duplicates are possible and not removed)"
+		cov["distinct_nontrivial"] = boundedDistinct
+		cov["inputs_satisfying_the_precondition"] = boundedTried
+		cov["rule"] = "one evaluation = one generated input of a ghost scenario executed on the real code and judged by its contract (a search that meets a violation stops there, so a scenario recorded as a known finding executes only the inputs up to its first failing one); non-trivial = the input satisfies the scenario's precondition; distinct = counted by the test itself per scenario as the number of different 64-bit FNV hashes of a canonical deep rendering of the argument tuple (pointers followed), summed over the scenarios; inputs come from one fixed master seed"
 		var ss []any
 		for _, b := range bounded {
 			ss = append(ss, b)
